@@ -81,14 +81,14 @@ fault: same result, and the readers are left with the same undelivered bytes and
 theorem read_until_chunks (s₁ s₂ : Sched) (acc : List UInt8)
     (hb : Sched.pre s₁ = Sched.pre s₂) (hf : Sched.firstFail s₁ = Sched.firstFail s₂) :
     (readUntil s₁ acc).1 = (readUntil s₂ acc).1 ∧
-    (isOk (readUntil s₁ acc).1 = true →
+    (rdIsOk (readUntil s₁ acc).1 = true →
       Sched.pre (readUntil s₁ acc).2 = Sched.pre (readUntil s₂ acc).2 ∧
       Sched.firstFail (readUntil s₁ acc).2 = Sched.firstFail (readUntil s₂ acc).2) := by
   obtain ⟨a1, a2⟩ := readUntil_spec s₁ acc
   obtain ⟨b1, b2⟩ := readUntil_spec s₂ acc
   rw [hb, hf] at a1; rw [hb, hf] at a2
   refine ⟨a1.trans b1.symm, fun h => ?_⟩
-  have h' : isOk (readUntil s₂ acc).1 = true := by rw [b1, ← a1]; exact h
+  have h' : rdIsOk (readUntil s₂ acc).1 = true := by rw [b1, ← a1]; exact h
   obtain ⟨p1, f1⟩ := a2 h
   obtain ⟨p2, f2⟩ := b2 h'
   exact ⟨p1.trans p2.symm, f1.trans f2.symm⟩
@@ -131,14 +131,14 @@ theorem readAll_bytes (enc : Encoding) (s : Sched) (h : noFail s = true) :
 theorem bom_any_chunking_partial (s₁ s₂ : Sched) (h₁ : bomOk s₁ = true) (h₂ : bomOk s₂ = true)
     (hb : Sched.pre s₁ = Sched.pre s₂) (hf : Sched.firstFail s₁ = Sched.firstFail s₂) :
     (readBom s₁).1 = (readBom s₂).1 ∧
-    (isOk (readBom s₁).1 = true →
+    (rdIsOk (readBom s₁).1 = true →
       Sched.pre (readBom s₁).2 = Sched.pre (readBom s₂).2 ∧
       Sched.firstFail (readBom s₁).2 = Sched.firstFail (readBom s₂).2) := by
   obtain ⟨a1, a2⟩ := readBom_spec s₁ h₁
   obtain ⟨b1, b2⟩ := readBom_spec s₂ h₂
   rw [hb, hf] at a1; rw [hb, hf] at a2
   refine ⟨a1.trans b1.symm, fun h => ?_⟩
-  have h' : isOk (readBom s₂).1 = true := by rw [b1, ← a1]; exact h
+  have h' : rdIsOk (readBom s₂).1 = true := by rw [b1, ← a1]; exact h
   obtain ⟨p1, f1⟩ := a2 h
   obtain ⟨p2, f2⟩ := b2 h'
   exact ⟨p1.trans p2.symm, f1.trans f2.symm⟩
